@@ -13,3 +13,18 @@ contract(M, 'regexp_simplify', {'r': 'Regexp'}, returns='Regexp',
 contract(M, 'regexp_size', {'r': 'Regexp'}, returns='Int',
          requires=[], ensures=['result == rsize(r)'], decreases=['rnodes(r)'],
          theories=['word', 'regexp'], props=['C05'], symbol_is_regexp=True)
+
+contract(M, 'concatenate', {'L1': 'Set[Word]', 'L2': 'Set[Word]'}, returns='Set[Word]',
+         requires=[], ensures=['all(app(x, y) in result for x in L1 for y in L2)', 'all(any(w == app(x, y) for x in L1 for y in L2) for w in result)'],
+         theories=['word'], props=['C02', 'C14'])
+
+_C = 'all(implies(is_concat(r) and 0 <= k and k <= wlen(w) and wlen(w) <= n and mem(take(k, w), L(r.left)) and mem(drop(k, w), L(r.right)), %s) for w in allwords() for k in ints())'
+_S = 'all(implies(is_iter(r) and 1 <= k and k <= wlen(w) and wlen(w) <= n and mem(take(k, w), L(r.operand)) and mem(drop(k, w), L(r)), %s) for w in allwords() for k in ints())'
+contract(M, 'regexp_words_up_to_n', {'r': 'Regexp', 'n': 'Int'}, returns='Set[Word]',
+         requires=['n >= 0'], ensures=['all(wlen(w) <= n and mem(w, L(r)) for w in result)', 'all(implies(wlen(w) <= n and mem(w, L(r)), w in result) for w in allwords())'],
+         decreases=['rnodes(r)', 'n'], types={'result': 'Set[Word]'},
+         asserts=[_C % 'take(k, w) in regexp_words_up_to_n(r.left, k)', _C % 'drop(k, w) in regexp_words_up_to_n(r.right, n - k)',
+                  _C % 'w in concatenate(regexp_words_up_to_n(r.left, k), regexp_words_up_to_n(r.right, n - k))', _C % 'w in result',
+                  _S % 'take(k, w) in regexp_words_up_to_n(r.operand, k)', _S % 'drop(k, w) in regexp_words_up_to_n(r, n - k)',
+                  _S % 'w in concatenate(regexp_words_up_to_n(r.operand, k), regexp_words_up_to_n(r, n - k))', _S % 'w in result'],
+         theories=['word', 'regexp'], props=['C02', 'C19'], symbol_is_regexp=True)
